@@ -145,6 +145,9 @@ def run(ctx):
             ctx.count(f"weight8:{F}:{Q}:axis{eff_axis}")
             if qb._scale.dtype != x.dtype:
                 ctx.spec_failures.append(("C03:scale-dtype", {"site": "AbsmaxOptimizer", "F": F, "got": str(qb._scale.dtype)}))
+            want_n = 1 if qb.axis is None else x.shape[qb.axis]
+            if qb._scale.numel() != want_n:
+                ctx.spec_failures.append(("C03:scale-count:AbsmaxOptimizer", {"F": F, "shape": list(x.shape), "axis": qb.axis, "scale_shape": list(qb._scale.shape), "expected_values": want_n}))
             if rng.random() < 0.5:
                 metamorphic_8bit(ctx, F, Q, axis, x)
         elif site == "absmax_scale":
@@ -160,6 +163,9 @@ def run(ctx):
             ctx.count(f"absmax_scale:{F}:{Q}:axis{axs}")
             if s.dtype != x.dtype:
                 ctx.spec_failures.append(("C03:scale-dtype", {"site": "absmax_scale", "F": F, "got": str(s.dtype)}))
+            want_n = 1 if (ax is None or x.ndim < 2) else x.shape[ax]
+            if s.numel() != want_n:
+                ctx.spec_failures.append(("C03:scale-count:absmax_scale", {"F": F, "shape": list(x.shape), "axis": ax, "scale_shape": list(s.shape), "expected_values": want_n}))
         else:
             bits = rng.choice([2, 4])
             out, qb, d = impl_affine(F, bits, axis, gs, x)
@@ -167,6 +173,13 @@ def run(ctx):
             lines.append(aff_line(F, bits, axis, gs, x))
             expect.append(mask_zero_scale(out, axis))
             meta.append(("maxopt", F, bits, axis, x))
+            if out.startswith("ok") and qb is not None:
+                # exactly one scale / zero-point per kept-axis index, or per group
+                # (a rank-1 tensor has no other dimension to reduce: torch reduces over everything and the result is per-tensor)
+                want_n = (x.numel() // gs) if gs else (x.shape[axis] if x.ndim > 1 else 1)
+                if qb._scale.numel() != want_n or qb._zeropoint.numel() != want_n or qb._scale.dtype != x.dtype:
+                    ctx.spec_failures.append(("C03:scale-count:MaxOptimizer", {"F": F, "bits": bits, "shape": list(x.shape), "axis": axis, "group_size": gs,
+                                                                              "scale_shape": list(qb._scale.shape), "zeropoint_shape": list(qb._zeropoint.shape), "expected_values": want_n}))
             if out.startswith("ok"):
                 spec_lines.append(spec02_line(F, bits, axis, gs, x, out))
                 spec_meta.append(("MaxOptimizer", F, bits, axis, x, names))
